@@ -24,14 +24,15 @@ open Sqfs
 (proved unreachable for the fuel the wrappers pass). -/
 inductive Err
   | alloc | io | compressor | internal | corrupted | unsupported | overflow | oob | notDir | noEntry
-  | linkLoop | notFile | argInvalid | sequence | fuel
+  | linkLoop | notFile | argInvalid | sequence | superMagic | superVersion | superBlockSize | fuel
   deriving DecidableEq, Repr, Inhabited
 
 def Err.name : Err → String
   | .alloc => "ALLOC" | .io => "IO" | .compressor => "COMPRESSOR" | .internal => "INTERNAL"
   | .corrupted => "CORRUPTED" | .unsupported => "UNSUPPORTED" | .overflow => "OVERFLOW" | .oob => "OOB"
   | .notDir => "NOT_DIR" | .noEntry => "NO_ENTRY" | .linkLoop => "LINK_LOOP" | .notFile => "NOT_FILE"
-  | .argInvalid => "ARG_INVALID" | .sequence => "SEQUENCE" | .fuel => "FUEL"
+  | .argInvalid => "ARG_INVALID" | .sequence => "SEQUENCE" | .superMagic => "SUPER_MAGIC"
+  | .superVersion => "SUPER_VERSION" | .superBlockSize => "SUPER_BLOCK_SIZE" | .fuel => "FUEL"
 
 /-- the buffers the modelled routines touch -/
 inductive Buf
@@ -52,6 +53,22 @@ inductive Buf
   | idxSrc        -- `inode->extra` read by `sqfs_inode_unpack_dir_index_entry`
   | idxOut        -- the entry `sqfs_inode_unpack_dir_index_entry` allocates
   | path          -- the caller's C string in `sqfs_dir_reader_resolve_path` (capacity = strlen + 1)
+  -- `Sqfs/Model/ReaderTables.lean`
+  | superBuf      -- `sqfs_super_t temp` in `sqfs_super_read`
+  | idTable       -- `tbl->ids.data` (`sqfs_id_table_read`: the table `sqfs_read_table` allocated)
+  | fragTable     -- `tbl->table.data` (`sqfs_frag_table_read`)
+  | xattrIdTbl    -- `sqfs_xattr_id_table_t idtbl` in `sqfs_xattr_reader_load`
+  | idBlockStarts -- `xr->id_block_starts` (`alloc_array(sizeof(sqfs_u64), num_id_blocks)`)
+  | xattrDesc     -- the caller's `sqfs_xattr_id_t *desc`
+  | xattrKeyHdr   -- `sqfs_xattr_entry_t key` on the stack of the xattr read functions
+  | xattrValHdr   -- `sqfs_xattr_value_t value` ditto
+  | xattrRef      -- `sqfs_u64 ref` in `read_value_hdr`
+  | xattrKeyOut   -- the entry `sqfs_xattr_reader_read_key` allocates
+  | xattrValOut   -- the value `sqfs_xattr_reader_read_value` allocates
+  | xattrKv       -- the `sqfs_xattr_t` `sqfs_xattr_reader_read` allocates and grows
+  | dirEntryOut   -- the `sqfs_dir_entry_t` `sqfs_dir_entry_from_inode` allocates
+  | nameIn        -- the `name` argument of `sqfs_dir_entry_from_inode` (the `ent->size + 2` bytes of a `sqfs_dir_node_t` name)
+  | linkOut       -- the string `it_read_link` allocates
   deriving DecidableEq, Repr
 
 structure Access where
@@ -67,6 +84,10 @@ def Access.inBounds (a : Access) : Prop := a.off + a.len ≤ a.cap
 instance (a : Access) : Decidable a.inBounds := by unfold Access.inBounds; exact inferInstance
 
 abbrev metaCap : Nat := Consts.metaBlockSize      -- sizeof(m->data) = sizeof(m->scratch)
+
+/-- the contract of `sqfs_compressor_t.do_block` that every theorem about a routine calling it assumes (`MetaCodecOk`,
+`hcodec`): the return value is negative (an error code) or at most `outsize` -/
+def codecContract (outsize : UInt32) (ret : Int) : Bool := ret < 0 || ret ≤ outsize.toNat
 
 /-! ## `meta_reader.c` -/
 
@@ -100,8 +121,17 @@ structure Res where
   r : Except Err Unit
   acc : List Access
 
-/-- `sqfs_meta_reader_seek` (meta_reader.c:93-150) -/
-def seek (c : MetaCfg) (m : MetaSt) (blockStart offset : UInt64) : Res :=
+/-- the reader after `block_offset = next_block = ~0, data_used = offset = 0` (meta_reader.c:119-122) -/
+def MetaSt.cleared : MetaSt := ⟨0, 0, 0xFFFFFFFFFFFFFFFF, 0xFFFFFFFFFFFFFFFF⟩
+
+/--
+`sqfs_meta_reader_seek` (meta_reader.c:93-165).  `fixed = true` is the code of the tree: before another block is
+loaded the cached one is forgotten (:119-122), and a failed offset test after loading leaves `data_used = 0`
+(:155-158) — every failure after that point leaves the cleared reader behind.  `fixed = false` is the code before
+these repairs (failures leave the old state, a failed offset test leaves the *new* `data_used` with the old
+`offset`: defect D3 needs exactly that).
+-/
+def seekG (fixed : Bool) (c : MetaCfg) (m : MetaSt) (blockStart offset : UInt64) : Res :=
   -- :101  if (block_start < m->start || block_start >= m->limit)
   if blockStart < c.start || blockStart ≥ c.limit then ⟨m, .error .oob, []⟩
   -- :104  if (block_start == m->block_offset)
@@ -109,44 +139,50 @@ def seek (c : MetaCfg) (m : MetaSt) (blockStart offset : UInt64) : Res :=
     if offset ≥ m.dataUsed then ⟨m, .error .oob, []⟩
     else ⟨{ m with offset := offset }, .ok (), []⟩
   else
+    -- :119  forget the cached block
+    let m0 : MetaSt := if fixed then MetaSt.cleared else m
     let l := c.src blockStart
-    -- :112  read_at(header)
-    if l.hdrIo then ⟨m, .error .io, []⟩
+    -- :124  read_at(header)
+    if l.hdrIo then ⟨m0, .error .io, []⟩
     else
       let compressed := (l.header &&& 0x8000) == 0
       let size : UInt32 := (l.header &&& 0x7FFF).toUInt32
-      -- :120  if (size > sizeof(m->data))
-      if size.toUInt64 > metaCap.toUInt64 then ⟨m, .error .corrupted, []⟩
-      -- :123  if ((block_start + 2 + size) > m->limit)        (u64, wraps)
-      else if blockStart + 2 + size.toUInt64 > c.limit then ⟨m, .error .oob, []⟩
+      -- :132  if (size > sizeof(m->data))
+      if size.toUInt64 > metaCap.toUInt64 then ⟨m0, .error .corrupted, []⟩
+      -- :135  if ((block_start + 2 + size) > m->limit)        (u64, wraps)
+      else if blockStart + 2 + size.toUInt64 > c.limit then ⟨m0, .error .oob, []⟩
       else
-        -- :126  read_at(block_start + 2, m->data, size)
+        -- :138  read_at(block_start + 2, m->data, size)
         let a1 := [Access.mk .metaData 0 size.toNat metaCap]
-        if l.dataIo then ⟨m, .error .io, a1⟩
+        if l.dataIo then ⟨m0, .error .io, a1⟩
         else
           let after (dataUsed : UInt64) (acc : List Access) : Res :=
-            -- :143  if (offset >= m->data_used)   -- data_used is already overwritten, offset is not
-            if offset ≥ dataUsed then ⟨{ m with dataUsed := dataUsed }, .error .oob, acc⟩
+            -- :155  if (offset >= m->data_used) { m->data_used = 0; return OUT_OF_BOUNDS; }
+            -- (before the repair: data_used is already overwritten, offset is not)
+            if offset ≥ dataUsed then ⟨if fixed then m0 else { m with dataUsed := dataUsed }, .error .oob, acc⟩
             else ⟨⟨dataUsed, offset, blockStart, blockStart + size.toUInt64 + 2⟩, .ok (), acc⟩
           if compressed then
-            -- :131  ret = do_block(m->data, size, m->scratch, sizeof(m->scratch)); memcpy(m->data, m->scratch, ret)
+            -- :143  ret = do_block(m->data, size, m->scratch, sizeof(m->scratch)); memcpy(m->data, m->scratch, ret)
             match l.dec with
-            | none => ⟨m, .error .compressor, a1⟩
+            | none => ⟨m0, .error .compressor, a1⟩
             | some ret =>
               after ret.toUInt64 (a1 ++ [Access.mk .metaScratch 0 ret.toNat metaCap,
                                          Access.mk .metaData 0 ret.toNat metaCap])
           else after size.toUInt64 a1
 
+/-- the seek of the tree -/
+def seek (c : MetaCfg) (m : MetaSt) (blockStart offset : UInt64) : Res := seekG true c m blockStart offset
+
 /--
 Top of one iteration of `sqfs_meta_reader_read` (meta_reader.c:171-178): compute `diff`, and when the current
 block is used up move to the next one.  Returns the seek result (or a no-op) and the bytes now available.
 -/
-def refill (c : MetaCfg) (m : MetaSt) : Res × UInt64 :=
+def refill (fixed : Bool) (c : MetaCfg) (m : MetaSt) : Res × UInt64 :=
   -- :171  diff = m->data_used - m->offset      (size_t, wraps when a failed seek left offset > data_used)
   let diff := m.dataUsed - m.offset
   if diff == 0 then
     -- :174  ret = sqfs_meta_reader_seek(m, m->next_block, 0);  diff = m->data_used
-    let s := seek c m m.nextBlock 0
+    let s := seekG fixed c m m.nextBlock 0
     (s, s.st.dataUsed)
   else (⟨m, .ok (), []⟩, diff)
 
@@ -162,7 +198,7 @@ def readLoop (fixed : Bool) (c : MetaCfg) (total : Nat) : Nat → MetaSt → (si
     if size == 0 then ⟨m, .ok (), acc⟩
     else if fixed && m.offset > m.dataUsed then ⟨m, .error .oob, acc⟩
     else
-      let p := refill c m
+      let p := refill fixed c m
       match p.1.r with
       | .error e => ⟨p.1.st, .error e, acc ++ p.1.acc⟩
       | .ok () =>
@@ -187,7 +223,7 @@ inductive MetaOp
 /-- all accesses of a history of calls (the reader keeps being used after failed calls) -/
 def runOps (fixed : Bool) (c : MetaCfg) : MetaSt → List MetaOp → List Access
   | _, [] => []
-  | m, .seek b o :: t => let r := seek c m b o; r.acc ++ runOps fixed c r.st t
+  | m, .seek b o :: t => let r := seekG fixed c m b o; r.acc ++ runOps fixed c r.st t
   | m, .read n :: t => let r := mread fixed c m n; r.acc ++ runOps fixed c r.st t
 
 /-- `sqfs_meta_reader_get_position` -/
@@ -311,7 +347,10 @@ def streamFill (fixed : Bool) (bs : UInt32) (s : StreamSt) (w : UInt32) (l : Blk
     else
       -- :437  precache_fragment_block; frag_blk_size checks; memcpy(buffer, frag_block + frag_off, buf_used)
       match fragPre with
-      | .error e => (s, .err e, [])                       -- `return ret` without the fail path
+      -- :472  `if (ret) return ret;` — not the `fail:` path: `buf_off = 0` and `buf_used` are already set (:442), the
+      -- buffer is not refilled, `filesz` is unchanged: the *next* call hands out `buf_used` stale bytes (inside the
+      -- `block_size` buffer), the call after that fails the same way again
+      | .error e => ({ s with bufOff := 0, bufUsed := bufUsed }, .err e, [])
       | .ok fragBlkSize =>
         if fragBlkSize < fragOff.toUInt64 || fragBlkSize - fragOff.toUInt64 < bufUsed then fail .corrupted []
         else done s [Access.mk .fragBlock fragOff.toNat bufUsed.toNat fragBlkSize.toNat,
